@@ -121,6 +121,13 @@ UnityOK(e) ==
     \A i \in 1 .. Len(e.ks) :
         IF e.echo.norm = 16 THEN UnityBand(SumSeq(e.ks[i].k, 1), e.p, 255)
         ELSE UnityBandW(SumSeqW(e.ks[i].k, 1), e.p)
+\* the band argument presupposes that the accumulator holds the exact sum: precision within the cap for which
+\* FixedLemmas!AccFits32/64 exclude an overflow, and (8-bit) the real coefficient mass within the i32 budget
+AccOK(e) ==
+    IF e.echo.norm = 16
+    THEN /\ e.p <= 21
+         /\ \A i \in 1 .. Len(e.ks) : SumAbs(e.ks[i].k, 1) <= (2147483647 - Pow2(e.p - 1)) \div 255
+    ELSE e.p <= 45
 NonNegOK(e) == \A i \in 1 .. Len(e.ks) : \A j \in 1 .. Len(e.ks[i].k) : e.ks[i].k[j] >= 0
 ClipOK(e) == e.echo.norm = 16 => \A i \in 1 .. Len(e.ks) : 2 * SumAbs(e.ks[i].k, 1) < 5 * Pow2(e.p)
 
@@ -131,6 +138,7 @@ Judge(e) ==
         ELSE IF Has(c, "sum1") /\ ~Sum1OK(e) THEN "weights-do-not-sum-to-one"
         ELSE IF Has(c, "ideal") /\ ~IdealOK(e) THEN "weight-is-not-the-documented-kernel"
         ELSE IF Has(c, "quant") /\ ~QuantOK(e) THEN "quantisation"
+        ELSE IF Has(c, "unity") /\ ~AccOK(e) THEN "accumulator-can-overflow"
         ELSE IF Has(c, "unity") /\ ~UnityOK(e) THEN "coefficients-do-not-reproduce-constants"
         ELSE IF Has(c, "nonneg") /\ ~NonNegOK(e) THEN "negative-coefficient"
         ELSE IF Has(c, "clip") /\ ~ClipOK(e) THEN "clip-table-range"
